@@ -389,10 +389,19 @@ func (g *mgen) fileRefs(label string, declared []string, secret bool) []any {
 	}
 	var out []any
 	seen := map[string]bool{}
-	n := g.intn(label+"#", 1, 2)
-	for i := 0; i < n; i++ {
+	n := g.intn(label+"#", 1, 3)
+	for i := 0; i < n && i < 3; i++ {
 		src := g.pick(label+"src", declared...)
+		if seen[src] && i == 2 {
+			continue // at most two mounts of one resource
+		}
 		if seen[src] {
+			// the same resource mounted a second time, at another target (entries are keyed by target)
+			if secret {
+				out = append(out, map[string]any{"source": src, "target": src + "_again"})
+			} else {
+				out = append(out, map[string]any{"source": src, "target": "/etc/again-" + src + ".conf"})
+			}
 			continue
 		}
 		seen[src] = true
